@@ -33,13 +33,14 @@ import (
 
 // C18Scenario is one replayable case.
 type C18Scenario struct {
-	Kind   string            `json:"kind"` // read | longline | write | complete | file
-	Read   *ReadScenario     `json:"read,omitempty"`
-	Cues   int               `json:"cues,omitempty"` // longline: cues by construction
-	Source *ListSource       `json:"source,omitempty"`
-	Writer string            `json:"writer,omitempty"`
-	WFault *simio.WriteFault `json:"wfault,omitempty"`
-	File   string            `json:"file,omitempty"`
+	Kind    string            `json:"kind"` // read | longline | write | complete | file
+	Read    *ReadScenario     `json:"read,omitempty"`
+	Cues    int               `json:"cues,omitempty"` // longline: cues by construction
+	Source  *ListSource       `json:"source,omitempty"`
+	Writer  string            `json:"writer,omitempty"`
+	WFault  *simio.WriteFault `json:"wfault,omitempty"`
+	WMedium string            `json:"wmedium,omitempty"` // how the sink is presented: "" plain io.Writer, "rich" (+StringWriter, ByteWriter, ReaderFrom)
+	File    string            `json:"file,omitempty"`
 }
 
 // ListSource says where a cue list comes from: a document read by the library, or a spec.
@@ -272,6 +273,18 @@ func completeSink(writer string, out []byte, c int, tail string) string {
 	return ""
 }
 
+// stlMaskDates blanks the clock-fed date fields of an STL header (C18 runs under the real clock).
+func stlMaskDates(writer string, out []byte) []byte {
+	if writer != "stl" || len(out) < 236 {
+		return out
+	}
+	m := append([]byte(nil), out...)
+	for i := 224; i < 236; i++ {
+		m[i] = '#'
+	}
+	return m
+}
+
 // evalWrite runs one writer call on a fresh build of the list.
 func evalWrite(src ListSource, writer string, plan simio.WritePlan) (cls string, errText string, w *simio.Writer, cues int) {
 	cls, errText, w, cues, _ = evalWriteTail(src, writer, plan)
@@ -285,7 +298,7 @@ func evalWriteTail(src ListSource, writer string, plan simio.WritePlan) (cls str
 	}
 	tail = lastWord(s)
 	w = simio.NewWriter(plan)
-	err, p := api.Write(writer, s, w)
+	err, p := api.Write(writer, s, w.Wrap())
 	switch {
 	case p != "":
 		return "panic", p, w, len(s.Items), tail
@@ -312,12 +325,23 @@ func checkC18Write(sc C18Scenario) *Violation {
 			Detail:    fmt.Sprintf("list=%s writer=%s fault=%+v: %s", src.Name(), sc.Writer, sc.WFault, why), Scenario: b}
 	}
 	if sc.Kind == "complete" {
-		if why := completeSink(sc.Writer, w0.Buf, cues, tail); why != "" {
+		out := w0.Buf
+		if sc.WMedium != "" {
+			cr, _, wr, _, _ := evalWriteTail(src, sc.Writer, simio.WritePlan{Medium: sc.WMedium})
+			if cr != "ok" {
+				return mk("incomplete-output", "writer fails on a sink offering optional interfaces but not on a plain one")
+			}
+			if !bytes.Equal(stlMaskDates(sc.Writer, wr.Buf), stlMaskDates(sc.Writer, w0.Buf)) {
+				return mk("incomplete-output", "the bytes handed to a sink offering io.StringWriter/io.ReaderFrom differ from those handed to a plain io.Writer")
+			}
+			out = wr.Buf
+		}
+		if why := completeSink(sc.Writer, out, cues, tail); why != "" {
 			return mk("incomplete-output", "writer returned nil but "+why)
 		}
 		return nil
 	}
-	cls, et, w, _ := evalWrite(src, sc.Writer, simio.WritePlan{Fault: sc.WFault})
+	cls, et, w, _ := evalWrite(src, sc.Writer, simio.WritePlan{Fault: sc.WFault, Medium: sc.WMedium})
 	switch {
 	case cls == "panic":
 		return mk("panic-under-fault", "the writer panicked: "+trunc(et, 200))
@@ -684,6 +708,21 @@ func RunC18(cfg Config) (*ShardResult, error) {
 					return res, nil
 				}
 			}
+			// the same pair through a sink that offers the optional interfaces: complete as well, and the same bytes
+			if cr, _, wr, cuesR, tailR := evalWriteTail(src, writer, simio.WritePlan{Medium: "rich"}); cr == "ok" {
+				res.Evaluations++
+				why := completeSink(writer, wr.Buf, cuesR, tailR)
+				if why == "" && !bytes.Equal(stlMaskDates(writer, wr.Buf), stlMaskDates(writer, w0.Buf)) {
+					why = "the bytes handed to a sink offering io.StringWriter/io.ReaderFrom differ from those handed to a plain io.Writer"
+				}
+				if why != "" {
+					b, _ := json.Marshal(C18Scenario{Kind: "complete", Source: &src, Writer: writer, WMedium: "rich"})
+					if addV(&Violation{Property: "C18", Class: "incomplete-output", Signature: fmt.Sprintf("C18 complete %s fault=none incomplete-output", writer),
+						Detail: fmt.Sprintf("list=%s writer=%s sink=rich: writer returned nil but %s", src.Name(), writer, why), Scenario: b}) {
+						return res, nil
+					}
+				}
+			}
 			m := len(w0.Buf)
 			// fault offsets: every k, or call boundaries +-1 and a sample
 			var ks []int
@@ -723,13 +762,20 @@ func RunC18(cfg Config) (*ShardResult, error) {
 				} else {
 					fs = append(fs, simio.WriteFault{Offset: k, Kind: simio.WriteFaultKinds[(k/2+ki)%len(simio.WriteFaultKinds)], Short: k%2 == 0})
 				}
-				for _, f := range fs {
+				for fi, f := range fs {
 					f := f
-					sc := C18Scenario{Kind: "write", Source: &src, Writer: writer, WFault: &f}
-					cls, et, w, _ := evalWrite(src, writer, simio.WritePlan{Fault: &f})
+					medium := ""
+					if (k+fi)%2 == 1 {
+						medium = "rich"
+					}
+					sc := C18Scenario{Kind: "write", Source: &src, Writer: writer, WFault: &f, WMedium: medium}
+					cls, et, w, _ := evalWrite(src, writer, simio.WritePlan{Fault: &f, Medium: medium})
+					if w != nil && w.RichCalls > 0 {
+						res.Probes["sink_optional_interface_used"]++
+					}
 					res.Evaluations++
 					res.SimEvents += int64(w.Writes)
-					res.Note("w", sh, writer, fmt.Sprint(f), cls, fmt.Sprint(w.Writes, w.FaultFired(), len(w.Buf)))
+					res.Note("w", sh, writer, fmt.Sprint(f), medium, cls, fmt.Sprint(w.Writes, w.FaultFired(), len(w.Buf)))
 					if w.FaultFired() {
 						res.Faults["write:"+f.Kind]++
 						if f.Short {
@@ -737,7 +783,7 @@ func RunC18(cfg Config) (*ShardResult, error) {
 						} else {
 							res.Probes["zero_write"]++
 						}
-						if seen.add(Key64("write", sh, writer, fmt.Sprint(f))) {
+						if seen.add(Key64("write", sh, writer, fmt.Sprint(f), medium)) {
 							res.Distinct++
 						}
 					}
